@@ -97,7 +97,25 @@ class BV(object):
 
 def _follows(a, b):
     return isinstance(a, tuple) and isinstance(b, tuple) and a[0] == b[0] \
+        and isinstance(a[1], int) and isinstance(b[1], int) \
         and b[1] == a[1] + 1
+
+
+def _neg(a):
+    if a in (0, 1):
+        return 1 - a
+    if a == TOP:
+        return TOP
+    if isinstance(a, tuple) and a[0] == 'not':
+        return a[1]
+    return ('not', a)
+
+
+def bxor_const(x, c):
+    """x ^ c for a constant c >= 0: the bits of x under the set bits of c
+    are complemented"""
+    return BV([_neg(b) if (c >> i) & 1 else b for i, b in enumerate(x.bits)],
+              x.hi)
 
 
 def _and(a, b):
@@ -208,6 +226,15 @@ class BitInterp(object):
     def err(self, msg, node):
         return AnalysisError('bitprov: ' + msg, node, rel(self.fi.path))
 
+    def fenv(self):
+        """folding environment of the codec's own scope: module names, and
+        the class itself under a classmethod's first parameter"""
+        fe = Env(self.fi.module)
+        if self.fi.cls is not None and self.fi.kind == 'class' and \
+                self.fi.params:
+            fe.vars[self.fi.params[0]] = ClassVal(self.fi.cls)
+        return fe
+
     # -- expressions -------------------------------------------------------
     def ev(self, e, env):
         if isinstance(e, ast.Constant):
@@ -228,6 +255,22 @@ class BitInterp(object):
                 return BV.const(v)
             return v
         if isinstance(e, ast.Attribute):
+            # a constant of the codec's own class: cls.X / self.X / Class.X
+            if isinstance(e.value, ast.Name) and env.get(e.value.id) in (
+                    None, ('param', e.value.id)) and \
+                    self.fi.cls is not None:
+                own = None
+                if self.fi.params and e.value.id == self.fi.params[0] and \
+                        self.fi.kind in ('class', 'instance'):
+                    own = ClassVal(self.fi.cls)
+                if own is not None and self.F.db.find_attr(
+                        self.fi.cls, e.attr) is not None:
+                    try:
+                        v = self.F.class_attr(own, e.attr, e, self.fi.module)
+                    except (AnalysisError, FoldRaise):
+                        v = None
+                    if isinstance(v, int) and not isinstance(v, bool):
+                        return BV.const(v)
             base = self.ev(e.value, env)
             if isinstance(base, Rec):
                 if e.attr not in base.attrs:
@@ -305,10 +348,23 @@ class BitInterp(object):
             f = {ast.Add: lambda p, q: p + q, ast.Sub: lambda p, q: p - q,
                  ast.Mult: lambda p, q: p * q}[type(op)]
             return BV.const(f(a.const_value(), b.const_value()))
+        if isinstance(op, ast.BitXor) and (b.is_const() or a.is_const()):
+            v, c = (a, b.const_value()) if b.is_const() else \
+                (b, a.const_value())
+            if c >= 0:
+                return bxor_const(v, c)
+            return BV.top()
         if isinstance(op, ast.Sub) and b.is_const():
             c = b.const_value()
             if c > 0 and c & (c - 1) == 0:
                 k = c.bit_length() - 1
+                if a.zero_from(k + 1) and isinstance(a.bits[k], tuple) and \
+                        a.bits[k][0] == 'not':
+                    # (v ^ 2**k) - 2**k with v < 2**(k+1): the sign extension
+                    # of the (k+1)-bit field v -- its low bits kept, its top
+                    # bit d at every position from k on
+                    d = a.bits[k][1]
+                    return BV(a.bits[:k] + [d] * (N - k), d)
                 if a.zero_from(k):
                     # v - 2**k with v < 2**k: low bits kept, the rest all 1
                     return BV(a.bits[:k] + [1] * (N - k), 1)
@@ -340,7 +396,7 @@ class BitInterp(object):
                 t.func.attr.startswith('protocol_'):
             recv = self.ev(t.func.value, env)
             if recv is self.ctx or recv == ('ctx',):
-                args = [self.F.eval(a, Env(self.fi.module)) for a in t.args]
+                args = [self.F.eval(a, self.fenv()) for a in t.args]
                 fv = self.F.getattr(self.ctx, t.func.attr, t, self.fi.module)
                 r = self.F.call(fv, args, {}, t, Env(self.fi.module))
                 self.version_tests.append((t.func.attr, tuple(args), r))
@@ -413,6 +469,36 @@ class BitInterp(object):
                 raise self.err('packer sends a non-integer', e)
             self.out.append((codec, v, e))
             return None
+        # a method of the record under construction: run it on the record
+        if isinstance(f, ast.Attribute) and isinstance(f.value, ast.Name) \
+                and isinstance(env.get(f.value.id), Rec):
+            rec = env[f.value.id]
+            m = None
+            if self.fi.cls is not None and (
+                    rec.name in (self.fi.cls.name, self.fi.cls.qualname)
+                    or (self.fi.kind == 'class' and self.fi.params
+                        and rec.name == self.fi.params[0])):
+                m = self.F.db.find_method(self.fi.cls, f.attr)
+            if m is None or m.kind != 'instance' or e.keywords or \
+                    len(e.args) != len(m.params) - 1 or \
+                    getattr(self, '_depth', 0) > 3:
+                raise self.err('call of %s on the record is not followed'
+                               % f.attr, e)
+            inner = {m.params[0]: rec}
+            for pn, a in zip(m.params[1:], e.args):
+                inner[pn] = self.ev(a, env)
+            outer_fi, self.fi = self.fi, m
+            self._depth = getattr(self, '_depth', 0) + 1
+            try:
+                try:
+                    self.block(m.body, inner)
+                    res = None
+                except _Ret as r:
+                    res = r.value
+            finally:
+                self.fi = outer_fi
+                self._depth -= 1
+            return res
         # constructor of the result: cls(...), Position(x=..), Name(...)
         args = [self.ev(a, env) for a in e.args]
         kws = {k.arg: self.ev(k.value, env) for k in e.keywords}
